@@ -256,9 +256,13 @@ def main():
             dict(base, MaxObjs=2, MaxItems=2, NKeys=1, NSlots=2, KindSet={'config', 'dict', 'tuple'},
                  TagChoices={0, 1}, UnsetTagged=True, MaxEdits=1)]
     if not quick:
-      runs = [dict(base, MaxObjs=3, MaxItems=2, NKeys=2, NSlots=2,
-                   KindSet={'config', 'partial', 'list', 'dict', 'tuple'},
-                   TagChoices={0, 1}, UnsetTagged=True, MaxEdits=2)]
+      # (sized with TLC alone: about 29 k + 40 k + 31 k pairs, four programs each; five kinds with two edits
+      # over three objects would be millions of programs)
+      runs = runs + [dict(base, MaxObjs=2, MaxItems=2, NKeys=2, NSlots=2,
+                          KindSet={'config', 'partial', 'list', 'dict', 'tuple'},
+                          TagChoices={0, 1}, UnsetTagged=True, MaxEdits=1),
+                     dict(base, MaxObjs=3, MaxItems=2, NKeys=1, NSlots=2, KindSet={'config', 'list', 'tuple'},
+                          TagChoices={0}, UnsetTagged=False, MaxEdits=1)]
     states = trans = 0
     for n, c in enumerate(runs):
       disp = common.Dispatcher(work, chunk=200)
